@@ -24,7 +24,8 @@
      Symbol.equation while Symbol.code is what runs: C20_equation_and_code_same_tokens shows both are renderings of one token list
      (a term NAME[t+k] in the one is self._NAME[t+k] in the other), under dq_ok_ws; that executing that code reads exactly those
      cells is NOT proved for parser output — it rests on the oracle (`influence-without-edge`, `edge-not-read`: every equation run
-     alone on 4 data vectors, every cell perturbed by +-0.4 and +-7.3, tuple targets and named periods included).
+     alone on 4 data vectors, every cell perturbed by +-0.4, +-7.3 and set just above / below the numeric literals of the code; every
+     cell the code reads must have an edge, every cell it writes must be a left-hand term; tuple targets and named periods included).
    * "is actually read" is proved only for conditional-free expressions that yield a value (C20_reads_logged, C20_edge_is_read);
      for `a if c else b` the theorem only restates membership in expr_reads (the definition of the edge): it does NOT cover the clause.
    * All parser-side theorems are about parse_model_nocheck / parse_equation_M, i.e. check_syntax=False; the default entry point
@@ -459,3 +460,25 @@ Theorem C20_wellformedness_needed_refuted :
     in_edges g "Y[t]" = ["ifa[t]"; "else"] /\ is_edge g "a[t]" "Y[t]" = false.
 Proof. exact renormalised_keyword_glued_refuted. Qed.
 Print Assumptions C20_wellformedness_needed_refuted.
+
+(* second independent review, 2026-10-02 — two accepted statements (default parse_model as well) whose graph does not describe what
+   the code does; both reproduced on the pinned tree, kept findings of C20 (the rewriting itself is C01 material): *)
+(* a second statement after ";": one equation for Y whose code also assigns Z; Z stays EXOGENOUS, is no node with an equation, and
+   the graph has the edge Z[t] -> Y[t] (and Y[t] -> Y[t]) although Z is written, not read *)
+Theorem C20_semicolon_statement_refuted :
+  view_of (parse_model_nocheck "Y = X; Z = Y")
+  = Some [(Some "Y", TEndogenous, Some "Y[t] = X[t]; Z[t] = Y[t]", Some "self._Y[t] = self._X[t]; self._Z[t] = self._Y[t]");
+          (Some "X", TExogenous, None, None); (Some "Z", TExogenous, None, None)] /\
+  graph_view (parse_model_nocheck "Y = X; Z = Y")
+  = Some ([("Y[t]", Some "Y[t] = X[t]; Z[t] = Y[t]"); ("X[t]", None); ("Z[t]", None)], [("X[t]", "Y[t]"); ("Z[t]", "Y[t]"); ("Y[t]", "Y[t]")]).
+Proof. exact ex_semicolon_statement. Qed.
+Print Assumptions C20_semicolon_statement_refuted.
+(* a name inside a string literal is rewritten like a term: edge W[t] -> Y[t], but the code compares with the string 'self._W[t]' *)
+Theorem C20_term_in_string_literal_refuted :
+  view_of (parse_model_nocheck "Y = X if S == 'W' else Z")
+  = Some [(Some "Y", TEndogenous, Some "Y[t] = X[t] if S[t] == 'W[t]' else Z[t]", Some "self._Y[t] = self._X[t] if self._S[t] == 'self._W[t]' else self._Z[t]");
+          (Some "X", TExogenous, None, None); (Some "if", TKeyword, None, None); (Some "S", TExogenous, None, None); (Some "W", TExogenous, None, None);
+          (Some "else", TKeyword, None, None); (Some "Z", TExogenous, None, None)] /\
+  (exists nodes edges, graph_view (parse_model_nocheck "Y = X if S == 'W' else Z") = Some (nodes, edges) /\ In ("W[t]", "Y[t]") edges).
+Proof. exact ex_term_in_string_literal. Qed.
+Print Assumptions C20_term_in_string_literal_refuted.
